@@ -527,7 +527,7 @@ def missing_files(chk, repo):
     io = repo.module("ceos_alos2.io")
     si = repo.module("ceos_alos2.sar_image")
     where = f"{io.relpath}:open"
-    files = ["summary.txt", "VOL-P", "LED-P", "IMG-HH-P", "IMG-HV-P", "TRL-P"]
+    files = ["summary.txt", "VOL-ALOS2012345678-160229-UBSR1.5RUD", "LED-ALOS2012345678-160229-UBSR1.5RUD", "IMG-HH-ALOS2012345678-160229-UBSR1.5RUD", "IMG-HV-ALOS2012345678-160229-UBSR1.5RUD", "TRL-ALOS2012345678-160229-UBSR1.5RUD"]
     chk.rule("C18-E9", "io.open on a model product with one file missing (summary, volume directory, leader, each image): an OSError-family error; the trailer is never read", 5)
     KE = ["KeyError", "LookupError", "Exception", "BaseException", "object"]
     FNF = ["FileNotFoundError", "OSError", "Exception", "BaseException", "object"]
@@ -540,7 +540,7 @@ def missing_files(chk, repo):
         present = {f: Const(b"bytes of " + f.encode()) for f in files if f != missing}
         if "summary.txt" in present:
             # a well-formed summary text: the line parser is the package's own (it may be spread over helpers), only the section transforms are a marker
-            present["summary.txt"] = Const(b'Odi_SceneId="ALOS2012345678-160229"\nPdi_CntOfL15ProductFileName="6"\nPdi_L15ProductFileName01="VOL-P"\n')
+            present["summary.txt"] = Const(b'Odi_SceneId="ALOS2012345678-160229"\nPdi_CntOfL15ProductFileName="6"\nPdi_L15ProductFileName01="VOL-ALOS2012345678-160229-UBSR1.5RUD"\n')
         reads = []
 
         def key(k):
@@ -576,10 +576,13 @@ def missing_files(chk, repo):
             return present.get(key(a[0]), a[1] if len(a) > 1 else kw.get("default", Const(None)))
         mapper = Obj("Mapper", OrderedDict(root=Const("memory://product"), fs=Obj("InnerFS", OrderedDict())))
         mapper.fields.update(__getitem__=Fn("py", impl=getitem, name="__getitem__"), getitems=Fn("py", impl=getitems, name="getitems"), get=Fn("py", impl=get, name="get"),
-                             __contains__=Fn("py", impl=lambda I_, a, kw: Const(key(a[0]) in present), name="__contains__"))
+                             __contains__=Fn("py", impl=lambda I_, a, kw: Const(key(a[0]) in present), name="__contains__"),
+                             __iter__=Fn("py", impl=lambda I_, a, kw: ListLit([Const(k) for k in files if k in present]), name="__iter__"),
+                             keys=Fn("py", impl=lambda I_, a, kw: ListLit([Const(k) for k in files if k in present]), name="keys"),
+                             __len__=Fn("py", impl=lambda I_, a, kw: Const(len(present)), name="__len__"))
         sc = I.module_scope(io)
         sc.vars["fsspec"] = Obj("fsspec", OrderedDict(get_mapper=Fn("py", impl=lambda I_, a, kw: mapper, name="get_mapper")))
-        roles = DictS(OrderedDict([("volume_directory", Const("VOL-P")), ("sar_leader", Const("LED-P")), ("sar_imagery", ListLit([Const("IMG-HH-P"), Const("IMG-HV-P")])), ("sar_trailer", Const("TRL-P"))]))
+        roles = DictS(OrderedDict([("volume_directory", Const("VOL-ALOS2012345678-160229-UBSR1.5RUD")), ("sar_leader", Const("LED-ALOS2012345678-160229-UBSR1.5RUD")), ("sar_imagery", ListLit([Const("IMG-HH-ALOS2012345678-160229-UBSR1.5RUD"), Const("IMG-HV-ALOS2012345678-160229-UBSR1.5RUD")])), ("sar_trailer", Const("TRL-ALOS2012345678-160229-UBSR1.5RUD"))]))
         summary = G("summary", DictS({"product_information": G("product_information", DictS({"data_files": G("data_files", None, roles)}))}))
         stubbed = []
 
@@ -619,8 +622,8 @@ def missing_files(chk, repo):
             raise AnalysisError(f"{where}: the complete model product does not open with the recording stubs ({(out.what if st == 'raised' else repr(out))[:100]}); the stubs do not fit the code, nothing is decided")
         if len(set(stubbed)) < 2:
             raise AnalysisError(f"{where}: the parsers of the volume directory and leader readers are not reached as module-level collaborators ({sorted(set(stubbed))}); nothing is decided")
-        chk.require("TRL-P" not in reads, "C18-E9", where, "the trailer is never read", "the trailer file is read during the open: a missing trailer now fails the open", key="missing:trailer-read")
-        for missing, what in (("summary.txt", "the summary"), ("VOL-P", "the volume directory"), ("LED-P", "the leader"), ("IMG-HH-P", "the first image"), ("IMG-HV-P", "the last image")):
+        chk.require("TRL-ALOS2012345678-160229-UBSR1.5RUD" not in reads, "C18-E9", where, "the trailer is never read", "the trailer file is read during the open: a missing trailer now fails the open", key="missing:trailer-read")
+        for missing, what in (("summary.txt", "the summary"), ("VOL-ALOS2012345678-160229-UBSR1.5RUD", "the volume directory"), ("LED-ALOS2012345678-160229-UBSR1.5RUD", "the leader"), ("IMG-HH-ALOS2012345678-160229-UBSR1.5RUD", "the first image"), ("IMG-HV-ALOS2012345678-160229-UBSR1.5RUD", "the last image")):
             st, out, reads, _ = run(missing)
             if st == "returned":
                 chk.fail("C18-E9", where, f"with {what} ({missing}) missing, io.open returns a tree instead of raising", key=f"missing:{'image' if missing.startswith('IMG') else missing}")
